@@ -58,12 +58,12 @@ TEXT = {
  'C07': dict(engine='verus', ref='4-C07', technique='Verus: event-trace postconditions of do_reduce/do_effect/do_notify and the loop invariant trace == concatenation of per-action blocks',
    level='unbounded proof that the trace of the reducer context is the concatenation, in receive order, of per-action blocks with the documented phase order, every callback a direct call of the loop, effects only handed to the dispatcher; registration appends to the very lists the pipeline iterates; exactly one loop per store',
    note='thread identity is a call-structure fact (A4/A5 for what execute/spawn do); A1 for visibility of registrations'),
- 'C08': dict(engine='verus', ref='4-C08', technique='Verus: frame clauses (only the loop writes the state cell) + StateSet event precedes Notify events in every block',
+ 'C08': dict(engine='verus', ref='4-C08', technique='Verus: frame clauses (only the loop writes the state cell) + precondition of do_notify: the state cell already holds the state being announced',
    level='proof that the only writer of the state cell is the reducer loop, that it writes exactly the chain result once per action before any notification of that action, and that get_state returns the cell content',
    note='monotonic reads across threads assume Mutex linearizability (A1)'),
- 'C09': dict(engine='verus+kani', ref='4-C09', technique='Verus: clear_subscribers trace/loop invariant, registration contracts; Kani (bounded <= 3 subscribers): the retain closure of unsubscribe on the real code',
-   level='proof that shutdown releases every registered subscriber exactly once and empties the list, that registration appends; bounded stand-in (lists of at most 3) for unsubscribe: removes exactly the target, releases it once, idempotent, others untouched',
-   note='the retain closure is outside the Verus subset (bounded Kani stand-in, labelled, not counted as discharged); a notification in flight after unsubscribe() returned is a schedule property not expressible in these contracts (DESIGN.md F-C09-1)'),
+ 'C09': dict(engine='verus+kani', ref='4-C09', technique='Verus: clear_subscribers loop invariant, lifted unsubscribe closure and retain predicate over the assumed Vec::retain contract, idempotence lemma; Kani (bounded, 1 subscriber) cross-check',
+   level='unbounded proof that shutdown releases every registered subscriber exactly once and empties the list, that registration appends, and that unsubscribe removes exactly the target (others stay, in order), releases it once and is idempotent; a 1-subscriber Kani harness cross-checks the assumed Vec::retain contract on the real code (bounded, not counted)',
+   note='Vec::retain is used through its documented contract (assumed); a notification in flight after unsubscribe() returned is a schedule property not expressible in these contracts (DESIGN.md section 5, not decided)'),
  'C10': dict(engine='verus', ref='4-C10', technique='Verus: forwarding wrapper, delivery loop invariant, release order, per-subscription channel',
    level='proof that the forwarding wrapper hands exactly one clone per notification to its own channel and can call no user callback, that the delivery loop calls the user subscriber once per received item in order and stops at Exit, that release drops the sender before joining, once; channel created with the caller capacity/policy',
    note='own thread: A5; channel behaviour: C05/C06 obligations on the same send function'),
@@ -85,7 +85,7 @@ TEXT = {
  'C17': dict(engine='verus', ref='4-C17', technique='Verus: whole-record postconditions of every setter, iff-postcondition of build, commutation lemmas',
    level='unbounded proof that every setter changes exactly its option, build fails exactly in the three stated cases and otherwise passes exactly the recorded settings to new_with, which stores them; commutation/last-wins lemmas over the record; genuine defect repaired by a fix: commit',
    note='String contents are vstd views; format! results uninterpreted'),
- 'C18': dict(engine='verus+kani', ref='4-C18', technique='Kani (loop-free, complete): every CountMetrics method adds the stated amount to exactly one counter; Verus: Metric events at the call sites',
+ 'C18': dict(engine='verus+kani', ref='4-C18', technique='Kani (loop-free, complete): every CountMetrics method adds the stated amount to exactly one counter; Verus: additive ghost counters at the call sites, loop invariant m == run_counts(received ops)',
    level='proof that each metrics method changes exactly its event counter by the stated amount (real metrics.rs) and that the call sites emit one received per recv, one reduced iff not vetoed, effect_issued with the number of effects returned, one middleware_executed per phase with the number of hooks run, one error per rejected StoreImpl::dispatch, one action_dropped per discarded action',
    note='balance over a whole run is the sum of the per-action blocks (C07 trace) plus C06 conservation; atomics assumed below usize::MAX'),
  'C19': dict(engine='verus', ref='4-C19', technique='Verus: freshness postcondition of new_with (Alloc events) and frame clauses; syntactic scan for process-wide state',
